@@ -163,6 +163,20 @@ def judge_run(case: dict, hi: int, res: dict, role: str, ref: dict | None) -> li
                     json.loads(files[apis[0]]["data"].decode("utf-8"))
                 except ValueError as e:
                     v("api-file-not-json", path=apis[0], error=str(e)[:200])
+            # the set of analysed modules depends on the package and the test-run flag only: a run that "completes" with
+            # fewer (or no) modules than the reference run of the same package did not process the package
+            if ref is not None and len(apis) == 1 and role == "schedule":
+                try:
+                    mine = sorted(m["id"] for m in json.loads(files[apis[0]]["data"].decode("utf-8")).get("modules", []))
+                    ref_files = engine.output_files(ref["out_tree"])
+                    ref_api = [k for k in ref_files if k.endswith("__api.json")]
+                    theirs = sorted(m["id"] for m in json.loads(ref_files[ref_api[0]]["data"].decode("utf-8")).get("modules", [])) if ref_api else None
+                    same_tr = bool((case["histories"][hi][-1].get("options") or {}).get("tr")) == bool(case["options"].get("tr"))
+                    if theirs is not None and same_tr and mine != theirs:
+                        v("completed-with-different-module-set", modules=len(mine), reference_modules=len(theirs),
+                          missing=[m for m in theirs if m not in mine][:5], extra=[m for m in mine if m not in theirs][:5], fingerprint={"gkey": "module-set"})
+                except (ValueError, KeyError, IndexError):
+                    pass
             out_rel = res["out_dir_rel"] + "/"
             for e in res.get("event_log", []):
                 p = str(e.get("path", ""))
